@@ -81,12 +81,13 @@ class SliceAccessor(Accessor):
         if isinstance(subscript, slice):
             # Acquiris Quodcumquae Rapis
             start, stop, step = subscript.start, subscript.stop, subscript.step
+            # defaults as in segyio: a slice runs over line numbers, upwards unless the step is negative
             if step is None:
-                step = int(self.keys_object[1] - self.keys_object[0])
+                step = abs(int(self.keys_object[1] - self.keys_object[0]))
             if start is None:
-                start = int(self.keys_object[0])
+                start = int(min(self.keys_object)) if step > 0 else int(max(self.keys_object))
             if stop is None:
-                stop = int(self.keys_object[-1] + 1)
+                stop = int(max(self.keys_object)) + 1 if step > 0 else int(min(self.keys_object)) - 1
             return [self.values_function(index) for index in range(start, stop, step)]
         else:
             return self.values_function(subscript)
